@@ -207,7 +207,7 @@ pub enum Expr {
     Block(Vec<Stmt>, Box<Expr>),
     Assign(usize, Box<Expr>),
     /// `loop { body }`; the number is the generator's bound on iterations (costing only)
-    Loop(u32, Box<Expr>),
+    Loop(u32, Ty, Box<Expr>),
     While(u32, Box<Expr>, Box<Expr>),
     Break(Ty, Box<Expr>),
     Continue(Ty),
@@ -608,7 +608,7 @@ impl Program {
                 write!(s, "v{} = ", x).unwrap();
                 self.expr(s, a, d);
             }
-            Expr::Loop(_, body) => {
+            Expr::Loop(_, _, body) => {
                 s.push_str("loop {\n");
                 self.stmt_body(s, body, d + 1);
                 Self::ind(s, d);
@@ -840,7 +840,7 @@ impl Program {
                 acc
             }
             Expr::Assign(x, a) => format!("(EAssign {} {})", x, c(a)),
-            Expr::Loop(_, b) => format!("(ELoop {})", c(b)),
+            Expr::Loop(_, t, b) => format!("(ELoop {} {})", self.ty_coq(t), c(b)),
             Expr::While(_, x, b) => format!("(EWhile {} {})", c(x), c(b)),
             Expr::Break(t, a) => format!("(EBreak {} {})", self.ty_coq(t), c(a)),
             Expr::Continue(t) => format!("(EContinue {})", self.ty_coq(t)),
